@@ -457,4 +457,15 @@ example : (runL id exPol (.opens exSess) none exLin).map (fun x => match x.1 wit
 example : (runL id exPol (.opens exSess) none exLin).map (fun x => match x.1 with
     | .opens s => checkOutcome exPol x.2.2.now x.2.2.req s x.2.2.ans | _ => .noCheck) = [.grace, .grace, .grace, .confirmed, .grace] := by decide
 
+/-- Tie (T1): the grace predicate (stamps the start on first use) and the deadline helpers — call/branch/store skeletons regenerated from the source on every run; the expectations below are
+what the model in this file transliterates. A structural edit of any of these functions breaks this theorem and sends the
+check searching for a failing input. -/
+theorem C05_wiring :
+    Sso.Generated.skel_sessions_IsWithinGracePeriod =
+      ["call:IsZero", "if{", "call:Now", "store:s.GracePeriodStart", "}", "call:Now", "call:Add", "call:After", "return"] ∧
+    Sso.Generated.skel_sessions_isExpired =
+      ["call:Now", "call:Before", "if{", "return", "}", "return"] ∧
+    Sso.Generated.skel_sessions_ExtendDeadline =
+      ["call:Now", "call:Add", "call:Truncate", "return"] := by decide
+
 end Sso.Proxy
